@@ -57,6 +57,7 @@ def build_menu(w, sc):
                     if item != default:
                         m.append(item)
         m.append(("assign", [ops], [(w.npools, 1, r0)]))       # pool that does not exist
+        m.append(("assign", [ops], [(-1, 1, r0)]))             # ... and the usual "no pool" sentinel
     # two assignments to one pool that fit one by one but not together
     flat = [o for _, ops in cands_ready for o in ops]
     if len(flat) >= 2:
@@ -78,6 +79,10 @@ def build_menu(w, sc):
                 if running_now:
                     c0 = running_now[0]
                     m.append(("suspend+assign", c0.container_id, c0.pool_id, [op], (c0.pool_id, 1, r0)))
+                others = [q for q in ops if q is not op and q not in op.parents and q.state().value in (P, F)
+                          and all(pp.state().value == C for pp in q.parents)]
+                if others and w.multi:
+                    m.append(("assign", [[op, others[0]]], [(0, 1, r0)]))              # child (parent unfinished) packed in front of a ready operator
                 free = [q for q in op.parents if q.state().value in (P, F)]
                 if free:
                     par = free[0]
@@ -102,6 +107,7 @@ def build_menu(w, sc):
     if running:
         c = running[0]
         m.append(("suspend", c.container_id, w.npools))                            # pool that does not exist
+        m.append(("suspend", c.container_id, -1))
         if w.npools > 1:
             m.append(("suspend", c.container_id, (c.pool_id + 1) % w.npools))      # wrong pool
         if cands_ready:
@@ -214,6 +220,10 @@ def scenarios(tier):
     out.append(dict(name="G-chain3-tps2", tps=2, pools=1, cpus=3, ram=64, overcommit=False, multi=True, r0=32,
                     horizon=6 if tier == "quick" else 8,
                     pipelines=[dict(prio="B", arrival=0, parents=[[], [0], [1]], ops=[[seg(1, 2, 1)], [seg(2, 2, 1)], [seg(1, 2, 1)]])]))
+    # H: a zero-tick child (a -> b) next to an independent root c: packings that would start b early
+    out.append(dict(name="H-zero-tick-child", tps=1, pools=1, cpus=3, ram=8, overcommit=False, multi=True, r0=2,
+                    horizon=5 if tier == "quick" else 6,
+                    pipelines=[dict(prio="B", arrival=0, parents=[[], [0], []], ops=[[seg(2, 1, 1)], [dict(cpu=0.0, scaling="const", mem=1, read=0)], [seg(1, 1, 1)]])]))
     # D: large allocations so that write-outs take several ticks; tiny ones so they take 0/1
     out.append(dict(name="D-long-writeout", tps=2, pools=1, cpus=4, ram=64, overcommit=False, multi=True, r0=32,
                     horizon=8 if tier == "quick" else 10,
